@@ -63,6 +63,7 @@ def run(rep: Report, tier: str) -> None:
 	rule_chain_fold(rep, idx)
 	rule_iteration_protocol(rep, idx)
 	rule_template_path_match(rep, idx)
+	rule_attr_walkers(rep, idx)
 
 
 def rule_a(rep: Report, idx: SourceIndex) -> None:
@@ -511,3 +512,52 @@ def rule_template_path_match(rep: Report, idx: SourceIndex) -> None:
 		ok = ok or any(not p_ and isinstance(a, ast.BoolOp) and isinstance(a.op, ast.And) and any(content_compare(v) and isinstance(v.ops[0], ast.NotEq) for v in a.values) for a, p_ in known)
 		ok = ok or any(p_ and isinstance(a, ast.BoolOp) and isinstance(a.op, ast.Or) and any(content_compare(v) and isinstance(v.ops[0], ast.Eq) for v in a.values) for a, p_ in known)
 		r.check(ok, f'candidate-accept:{unparse(ret.value)[:40]}', (tm.relpath, ret.lineno), f'`{unparse(ret)[:80]}` accepts a candidate after comparing only the NUMBER of normalised path elements (conditions: {[(unparse(a)[:60], p_) for a, p_ in known][-3:]}): for `def vof(d: dict[K, V]) -> V` the first argument of equal depth is taken and `vof(d)` is typed str for a dict[str, int]', unparse(ret)[:100])
+
+
+def rule_attr_walkers(rep: Report, idx: SourceIndex) -> None:
+	"""A type is a tree of symbols (`attrs`). A walker that rewrites or collects over that tree (substituting the class type variables into a method
+	signature, ordering the keys for export) must reach EVERY nesting level: at each visited node it enumerates node.attrs and descends into the child
+	itself. Descending into `child.attrs` (the grandchildren) skips every other level: `Callable[[T], R]` keeps its bare T while `list[T]` is
+	substituted, so an un-annotated lambda parameter is inferred as T instead of the receiver's type argument."""
+	from vlib.match import X, nodes
+	r = rep.rule('C03/type-tree-walkers-visit-every-level', 'every recursive / work-list walker over symbol.attrs in the reflection layer descends into the enumerated child itself (recursive call or push of the loop variable), never into child.attrs', floor=2)
+	n_walkers = 0
+	for rel in ('rogw/tranp/semantics/reflection/traits.py', 'rogw/tranp/semantics/reflection/db.py', 'rogw/tranp/semantics/reflection/reflection.py', 'rogw/tranp/semantics/reflection/helper/template.py'):
+		m = idx.mod(rel)
+		rep.consulted(rel)
+		for q, f in m.functions.items():
+			if '#' in q or '.<locals>.' in q:
+				continue
+			fx = X(f)
+			for lp in nodes(fx, ast.For):
+				it = lp.iter
+				if isinstance(it, ast.Call) and unparse(it.func) == 'enumerate' and it.args:
+					it = it.args[0]
+				if not (isinstance(it, ast.Attribute) and it.attr == 'attrs'):
+					continue
+				child = lp.target.elts[-1] if isinstance(lp.target, ast.Tuple) else lp.target
+				if not isinstance(child, ast.Name):
+					continue
+				descents = []
+				for c_ in nodes(lp, ast.Call):
+					if isinstance(c_.func, ast.Attribute) and c_.func.attr == f.name and c_.args:
+						tgt = c_.args[1] if unparse(c_.args[0]) in ('for_module_path',) and len(c_.args) > 1 else c_.args[0]
+						cands = [a for a in c_.args if any(isinstance(x, ast.Name) and x.id == child.id for x in ast.walk(a))]
+						descents += [(c_, a) for a in cands]
+					elif isinstance(c_.func, ast.Attribute) and c_.func.attr in ('append', 'extend', 'insert', 'appendleft') and c_.args and any(isinstance(x, ast.Name) and x.id == child.id for x in ast.walk(c_.args[-1])):
+						descents.append((c_, c_.args[-1]))
+				if not descents:
+					continue
+				n_walkers += 1
+				key = f'{q}:for {child.id} in {unparse(it)[:40]}'
+				bad = [(c_, a) for c_, a in descents if not (isinstance(a, ast.Name) and a.id == child.id) and not (isinstance(a, (ast.List, ast.Tuple)) and all(isinstance(e, ast.Name) and e.id == child.id for e in a.elts))]
+				skipping = [(c_, a) for c_, a in bad if any(isinstance(x, ast.Attribute) and x.attr == 'attrs' and isinstance(x.value, ast.Name) and x.value.id == child.id for x in ast.walk(a))]
+				if skipping:
+					c_, a = skipping[0]
+					r.violate(key, (rel, c_.lineno), f'{q} enumerates `{unparse(it)}` and descends with `{unparse(c_)[:80]}`: the children of `{child.id}` are visited but `{child.id}` itself never is, so every other nesting level is skipped (type variables at even depth of a signature, e.g. the T of Callable[[T], R], are left unsubstituted)', unparse(c_)[:100])
+				elif bad:
+					r.skip(key, (rel, bad[0][0].lineno), f'descent `{unparse(bad[0][0])[:60]}` not classified')
+				else:
+					r.ok(key, (rel, lp.lineno))
+	if n_walkers == 0:
+		r.skip('walkers', None, 'no recursive walker over .attrs found in the reflection layer')
